@@ -18,6 +18,7 @@ mod c12;
 mod c13;
 mod c14;
 mod c15;
+mod c17;
 mod gen_builders;
 mod util;
 
@@ -40,6 +41,7 @@ fn run_property(id: &str, tier: &str) -> Option<Run> {
         "C13" => c13::run(tier),
         "C14" => c14::run(tier),
         "C15" => c15::run(tier),
+        "C17" => c17::run(tier),
         _ => return None,
     })
 }
@@ -75,6 +77,7 @@ fn main() {
             "C13" => c13::replay(&v["replay"]),
             "C14" => c14::replay(&v["replay"]),
             "C15" => c15::replay(&v["replay"]),
+            "C17" => c17::replay(&v["replay"]),
             _ => Err(format!("no replay for property {prop}")),
         };
         match res {
